@@ -199,6 +199,10 @@ func tokens(fd *ast.FuncDecl, methods map[string]bool) []string {
 					toks = append(toks, "call:"+last)
 				case len(c) == 1 && last == "newRefPlaceholder":
 					toks = append(toks, "call:"+last)
+				case len(c) == 2 && last == "claim":
+					// RefSchema.claim(descriptor): the ref found or created is checked against the descriptor it was
+					// registered for (ConcSites.code_hitpol)
+					toks = append(toks, "call:claim")
 				case len(c) >= 2 && c[len(c)-2] == "schemaSet" && last == "Schema":
 					toks = append(toks, "call:schemaSet.Schema")
 				case len(c) >= 2 && c[len(c)-2] == "refl" && last == "NewRoot":
@@ -349,6 +353,20 @@ func genConc(repo string) (string, error) {
 	}
 	sb.WriteString("(* lib/j5schema/schema_from_proto.go: functions that call newRefPlaceholder / refTo *)\n")
 	emit("placeholder_functions", phFns)
+
+	// ---- lib/j5schema/root_schema.go: RefSchema.claim, if there is one (the descriptor a ref was registered for)
+	var claimToks []string
+	if _, rs, err := gen.ParseFile(filepath.Join(repo, "lib/j5schema/root_schema.go")); err == nil {
+		for _, d := range rs.Decls {
+			if fd, ok := d.(*ast.FuncDecl); ok && fd.Name.Name == "claim" {
+				if t, _ := recvName(fd); t == "RefSchema" {
+					claimToks = tokens(fd, map[string]bool{})
+				}
+			}
+		}
+	}
+	sb.WriteString("(* lib/j5schema/root_schema.go: func (ref *RefSchema) claim — empty when there is no such method *)\n")
+	fmt.Fprintf(&sb, "Definition claim_method : list string := %s.\n", coqList(claimToks))
 
 	// ---- lib/j5reflect/reflect.go, internal/codec/codec.go: how the cache is reached
 	for _, src := range []struct{ def, path, typ string }{
